@@ -128,7 +128,8 @@ def v3_tables(tier, seed, minor):
     tabs.append(header("3", minor, {}, b5, cia + tmp_sp))
     tabs.append(header("3", minor, {}, tmp_sp, b5 + cia))
     # Modified Scope and Modified Privileges Required written alone (nothing else modified): every base vector
-    tabs.append(header("3", minor, {}, b5, cia + [dim("3", "MS", absent=True), dim("3", "MPR", absent=True)]))
+    tabs.append(header("3", minor, {}, b5, cia + [dim("3", "MS", absent=True), dim("3", "MPR", absent=True),
+                                                  tuple_dim("R", ["CR", "IR", "AR"], [("-", "-", "-"), ("L", "L", "L"), ("H", "M", "L")])]))
     t48 = list(itertools.product("UPFH", "OTWU", "URC"))
     baseU = {"AV": "N", "AC": "L", "PR": "L", "UI": "N", "S": "U", "C": "H", "I": "L", "A": "N"}
     baseC = {"AV": "A", "AC": "H", "PR": "H", "UI": "R", "S": "C", "C": "L", "I": "H", "A": "H"}
